@@ -116,3 +116,29 @@ Proof.
   destruct (valid_order reqauth h o') eqn:E; [|discriminate].
   injection H as <-. apply valid_order_linearization, E.
 Qed.
+
+(* ---- the checker accepts a concurrent history and rejects one (both observed on the implementation) ---- *)
+Definition mkres (c v : N) : result := {| r_cls := c; r_val := v |}.
+
+(* attach(0) returns; then stat(0) and clunk(0) overlap: stat entered Dirent.Stat first *)
+Definition ex_hist : list hop :=
+  [ {| h_op := OpAttach 0 NOFID; h_script := [OOk 0 true]; h_id := 0; h_inv := 0; h_ret := 1;
+       h_res := mkres R_OK 0; h_calls := [(K_ATTACH, 0)] |};
+    {| h_op := OpStat 0; h_script := [OOk 0 false]; h_id := 1; h_inv := 2; h_ret := 5;
+       h_res := mkres R_OK 0; h_calls := [(K_STAT, 1)] |};
+    {| h_op := OpClunk 0; h_script := [OOk 0 false]; h_id := 2; h_inv := 3; h_ret := 6;
+       h_res := mkres R_OK 0; h_calls := [(K_CLUNK, 1)] |} ].
+
+Lemma ex_lin_accepts : lin_check false ex_hist = Some [0; 1; 2]%nat.
+Proof. vm_compute. reflexivity. Qed.
+
+(* before fix 012a085: remove(2) overlapping an attach(2) whose fs.Attach fails returned success
+   without any call - no order of the two explains that *)
+Definition ex_hist_bad : list hop :=
+  [ {| h_op := OpAttach 2 NOFID; h_script := [OErr]; h_id := 0; h_inv := 0; h_ret := 3;
+       h_res := mkres R_FSERR 0; h_calls := [(K_ATTACH, 0)] |};
+    {| h_op := OpRemove 2; h_script := []; h_id := 1; h_inv := 1; h_ret := 3;
+       h_res := mkres R_OK 0; h_calls := [] |} ].
+
+Lemma ex_lin_rejects : lin_check false ex_hist_bad = None.
+Proof. vm_compute. reflexivity. Qed.
